@@ -327,6 +327,10 @@ def make_expand(uname, menu, depth):
       raise HarnessError(f"history does not start with an init event of {uname}: {history[:1]}")
     level = len(history) - 1
     w = replay(history)
+    if level >= depth and level > 0:
+      # deepest level: the history is replayed, the state is not expanded; its invariant was evaluated when the
+      # transition that produced it was executed (below, in the expansion of its predecessor)
+      return []
     snap = R.snapshot(w)
     inv = R.invariant(w, snap)
     if level == 0 and inv:
